@@ -367,6 +367,13 @@ func c08Classify(d []byte, ctx c08Ctx) string {
 				// a lone unprotected alert that is neither fatal nor close_notify: inert while the handshake is
 				// running (conn.go classifyReadLoopError) and once established (handleRecordContent, d95e20d)
 				return "warn"
+			} else if r.ct == 23 && len(recs) == 1 {
+				// a lone unprotected application_data record: refused silently in every phase (8aa2dc9)
+				return "app0"
+			} else if r.ct == 20 && len(recs) == 1 {
+				// a lone unprotected change_cipher_spec with the valid body: ends the peer's epoch 0 while the
+				// handshake runs, inert once established (ae10e63)
+				return "ccs0"
 			} else if r.ct == 21 && len(recs) == 1 {
 				// a lone unprotected fatal alert / close_notify: exception X1 while the handshake is running,
 				// inert once established (d95e20d)
@@ -385,7 +392,7 @@ func c08Classify(d []byte, ctx c08Ctx) string {
 }
 
 func c08IsDrop(class string) bool {
-	return class != "clear" && class != "auth" && class != "warn" && !strings.HasPrefix(class, "alert:")
+	return class != "clear" && class != "auth" && class != "warn" && class != "ccs0" && !strings.HasPrefix(class, "alert:")
 }
 
 // ---------------------------------------------------------------- session with monitors
@@ -597,7 +604,7 @@ func (s *c08Sess) inject(target string, data []byte, class, gen string) c08Effec
 	if !c08IsDrop(class) {
 		s.res.DropOnly = false
 	}
-	if !(c08IsDrop(class) || class == "warn" || (strings.HasPrefix(class, "alert:") && est)) {
+	if !(c08IsDrop(class) || class == "warn" || ((strings.HasPrefix(class, "alert:") || class == "ccs0") && est)) {
 		s.res.Inert = false
 	}
 	k := fmt.Sprintf("%v|%s|%s|%d|%v|%v", est, class, eff.key(), min(info.nrec, 2), fresh, neg)
@@ -606,7 +613,7 @@ func (s *c08Sess) inject(target string, data []byte, class, gen string) c08Effec
 	} else {
 		s.obsIdx[k] = len(s.res.Obs)
 		o := c08Obs{Est: est, V13: ctxV13, Class: class, Gen: gen, Effect: eff, N: 1, NRec: info.nrec, Fresh: fresh, Neg: neg}
-		if !eff.none() || len(s.res.Obs) < 2 || ((c08IsDrop(class) || class == "warn" || strings.HasPrefix(class, "alert:")) && len(data) <= 64) {
+		if !eff.none() || len(s.res.Obs) < 2 || ((c08IsDrop(class) || class == "warn" || class == "ccs0" || strings.HasPrefix(class, "alert:")) && len(data) <= 64) {
 			o.Hex = vHex(data)
 		}
 		s.res.Obs = append(s.res.Obs, o)
@@ -1108,6 +1115,11 @@ var c08Corpus = []c08CorpusItem{ //nolint:gochecknoglobals
 	{"cid-type-epoch0", "19fefd000000000000f0090003010203"},
 	{"rrc-epoch0-short", "1bfefd000000000000f00b0003000102"},
 	{"ccs-epoch1-bad", "14fefd000100000000f00a00010200"[:28]},
+	{"ccs-epoch1-valid", "14fefd000100000000f00d000101"},
+	{"ccs-epoch1-valid-maxseq", "14fefd0001ffff0000f00e000101"},
+	{"ccs-epoch2-valid", "14fefd000200000000f00f000101"},
+	{"ccs-epoch0-valid", "14fefd000000000000f010000101"},
+	{"appdata-epoch0", "17fefd000000000000f0110004deadbeef"},
 	{"ccs-epoch1-bad2", "14fefd000100000000f00c00020101"},
 	{"F3-cke-2byte-mseq1", "16fefd000000000000ff02000e1000000200010000000000020000"},
 	{"F3-cke-2byte-mseq2", "16fefd000000000000ff03000e1000000200020000000000020000"},
@@ -1204,8 +1216,15 @@ func (s *c08Sess) batch(c c08Case, rng *vRand, target string, pending []byte) {
 					d[0] = 25
 					d = append(d[:11], append(append([]byte(nil), dtlsstate.CommonState(tgt.state).LocalConnectionIDForInboundRecords()...), 0, 0)...)
 				}
-				binary.BigEndian.PutUint16(d[len(d)-2:], 48)
-				d = append(d, rng.bytes(48)...)
+				if i%2 == 1 && ctx.cidLen == 0 {
+					// typed change_cipher_spec with the VALID body: no suite authenticates it, so it must be inert
+					d[0] = 20
+					binary.BigEndian.PutUint16(d[len(d)-2:], 1)
+					d = append(d, 1)
+				} else {
+					binary.BigEndian.PutUint16(d[len(d)-2:], 48)
+					d = append(d, rng.bytes(48)...)
+				}
 			}
 			s.inject(target, d, c08Classify(d, ctx), "forged-seq")
 		case "warn":
